@@ -180,7 +180,89 @@ func scenC11(r *Run, job *Job) {
 			}
 			r.Check(done, "C11.operation-blocked", "%s did not complete", what)
 		}
-		switch t.Weighted(5, 3, 2, 2, 1, 3, 1, 1, 2) {
+		switch t.Weighted(5, 3, 2, 2, 1, 3, 1, 1, 2, 2) {
+		case 9: // a count change and an arrival at the same moment: the outcome must be that of one of the two orders
+			if profile != "gate" {
+				continue
+			}
+			c := m.arrived + t.Draw(3) // around the arrivals made: the interesting range
+			what = fmt.Sprintf("set-count(%s,%d) || arrive", names[g], c)
+			type outcome struct {
+				setErr, arrErr bool
+				st             latch
+			}
+			serial := func(setFirst bool) outcome {
+				x := *m
+				var o outcome
+				doSet := func() {
+					if c < x.arrived {
+						o.setErr = true
+					} else {
+						x.count = c
+					}
+				}
+				doArr := func() {
+					if x.arrived == x.count {
+						o.arrErr = true
+					} else {
+						x.arrived++
+					}
+				}
+				if setFirst {
+					doSet()
+					doArr()
+				} else {
+					doArr()
+					doSet()
+				}
+				o.st = x
+				return o
+			}
+			oa, ob := serial(true), serial(false)
+			var setRes, arrRes error
+			var fin [2]bool
+			r.NextStep()
+			r.Go(func() { setRes = gates[g].SetCount(uint16(c)); fin[0] = true })
+			r.Go(func() { arrRes = gates[g].WalkThrough(); fin[1] = true })
+			r.Settle()
+			if !(fin[0] && fin[1]) && r.HeldNow() {
+				r.ReleaseHolds()
+				r.Settle()
+			}
+			r.Check(fin[0] && fin[1], "C11.operation-blocked", "%s did not complete", what)
+			// the state between the two operations, as a waiter released in this step may have seen it
+			between := func(setFirst bool) latch {
+				x := prev[g]
+				if setFirst {
+					if c >= x.arrived {
+						x.count = c
+					}
+				} else if x.arrived != x.count {
+					x.arrived++
+				}
+				return x
+			}
+			mid = make([]latch, len(models))
+			for k, x := range models {
+				mid[k] = *x
+			}
+			switch {
+			case (setRes != nil) == oa.setErr && (arrRes != nil) == oa.arrErr:
+				*m = oa.st
+				mid[g] = between(true)
+				if (setRes != nil) == ob.setErr && (arrRes != nil) == ob.arrErr {
+					// both orders explain the verdicts: a waiter may have seen either intermediate state
+					if b := between(false); b.arrived == b.count {
+						mid[g] = b
+					}
+				}
+			case (setRes != nil) == ob.setErr && (arrRes != nil) == ob.arrErr:
+				*m = ob.st
+				mid[g] = between(false)
+			default:
+				r.Failf("C11.concurrent-verdict", "%s returned set=%v arrive=%v; set first gives set-refused=%v arrive-refused=%v, arrive first gives set-refused=%v arrive-refused=%v (arrived=%d count=%d before)", what, setRes, arrRes, oa.setErr, oa.arrErr, ob.setErr, ob.arrErr, prev[g].arrived, prev[g].count)
+			}
+			r.Fault("concurrent-count-change-and-arrival")
 		case 8: // two arrivals at the same moment (two goroutines; their lock acquisitions interleave)
 			what = "arrive x2 (" + names[g] + ")"
 			wantErrs := 0
